@@ -781,3 +781,24 @@ Proof.
 Qed.
 
 End WithByte.
+
+(** Within one slot epoch the honest packet is emitted AT MOST ONCE on any schedule: count
+    the emissions of [spec_feed]. *)
+Definition is_emit {B : Type} (r : res B) : bool :=
+  match r with Ok (Some _) => true | _ => false end.
+
+Lemma spec_feed_complete_silent {B : Type} (so : N) (n : nat) (data : list B) sched seen :
+  filter is_emit (spec_feed so n data seen true sched) = [].
+Proof.
+  induction sched as [|j r IH]; cbn [spec_feed filter is_emit]; [reflexivity|exact IH].
+Qed.
+
+Lemma spec_feed_emits_at_most_once {B : Type} (so : N) (n : nat) (data : list B) sched :
+  forall seen c, (length (filter is_emit (spec_feed so n data seen c sched)) <= 1)%nat.
+Proof.
+  induction sched as [|j r IH]; intros seen c; cbn [spec_feed]; [cbn; auto|].
+  destruct c; [cbn [filter is_emit]; apply IH|].
+  destruct (existsb (Nat.eqb j) seen); [cbn [filter is_emit]; apply IH|].
+  destruct (Nat.eqb (S (length seen)) n); cbn [filter is_emit]; [|apply IH].
+  rewrite spec_feed_complete_silent. cbn. auto.
+Qed.
